@@ -401,15 +401,47 @@ def r03_4_5(rep: Report) -> None:
     else:
         rep.fail('R03.5', c, 'traf edit -> trun data_offset forced',
                  'a child is inserted into traf without forcing the trun data_offset field', fn)
-    # emsg insertion index derives from the moof index
-    ins = [n for n in ast.walk(fn) if isinstance(n, ast.Call) and call_name(n) == 'atom.children.insert']
-    if ins and all('moof_idx' in norm(i.args[0]) for i in ins) and any(
-            isinstance(a, ast.Assign) and norm(a.targets[0]) == 'moof_idx'
-            and norm(a.value) == "atom.index('moof')" for a in ast.walk(fn)):
-        rep.ok('R03.5', c, 'emsg inserted immediately before moof')
-    else:
-        rep.fail('R03.5', c, 'emsg inserted immediately before moof',
-                 'emsg boxes are not inserted at the index of the moof box', fn)
+    # emsg boxes end up in front of the moof box: the insertion index is the index of the moof box
+    # plus at most the number of boxes inserted so far (one counter: the enumerate index of the current
+    # generator's boxes, or a local that is incremented once per insertion) - not the sum of two
+    from ..core import subst_locals
+    from .c20 import lin
+    ins = [n for n in ast.walk(fn) if isinstance(n, ast.Call) and (call_name(n) or '').endswith('children.insert')
+           and len(n.args) == 2]
+    if not ins:
+        raise AnalysisError('generate_media_segment: no emsg insertion found')
+    for call in ins:
+        idx_e = subst_locals(fn, call.args[0], allow_calls=True)
+        l = lin(call.args[0])
+        base_names = [k for k in (l or {}) if k and ('moof' in k)]
+        moof_defs = {norm(a_.targets[0]): norm(a_.value) for a_ in ast.walk(fn)
+                     if isinstance(a_, ast.Assign) and len(a_.targets) == 1 and isinstance(a_.targets[0], ast.Name)
+                     and "index('moof')" in norm(a_.value)}
+        key = f'emsg index `{norm(call.args[0])[:40]}`'
+        if l is None or not any(k in moof_defs for k in l):
+            rep.fail('R03.5', c, 'emsg inserted immediately before moof',
+                     f'emsg boxes are inserted at `{norm(call.args[0])}`, which is not derived from the index of the '
+                     'moof box', call)
+            continue
+        rest = {k: v for k, v in l.items() if k not in moof_defs and k != ''}
+        const = l.get('', 0)
+        counters = []
+        for k in rest:
+            is_enum = any(isinstance(f_, ast.For) and isinstance(f_.iter, ast.Call) and norm(f_.iter.func) == 'enumerate'
+                          and isinstance(f_.target, ast.Tuple) and norm(f_.target.elts[0]) == k
+                          and any(x is call for x in ast.walk(f_)) for f_ in ast.walk(fn))
+            is_count = any(isinstance(a_, ast.AugAssign) and norm(a_.target) == k and isinstance(a_.op, ast.Add)
+                           and norm(a_.value) == '1' for a_ in ast.walk(fn))
+            counters.append((k, is_enum or is_count))
+        ok_form = const == 0 and all(v == 1 for v in rest.values()) and len(rest) <= 1 \
+            and all(okc for _k, okc in counters)
+        if ok_form:
+            rep.ok('R03.5', c, 'emsg inserted immediately before moof', norm(call.args[0]))
+        else:
+            rep.fail('R03.5', c, 'emsg inserted immediately before moof',
+                     f'emsg boxes are inserted at `{norm(call.args[0])}`: beyond the moof index the offset must be at '
+                     'most the number of boxes inserted so far (one counter); here boxes can land between moof '
+                     'and mdat, where trun.data_offset no longer addresses the first payload byte', call)
     # PIFF insertion in playready.update_traf_if_required
     pr = rep.repo.tree('dashlive/drm/playready.py')
     pcls = need(find_class(pr, 'PlayReady'), 'PlayReady')
